@@ -24,7 +24,14 @@ impl From<encode::Error> for Error {
 //@end
 //@extract file=src/sighash.rs item="pub struct Annex"
 //@end
-impl<'a> Annex<'a> { pub closed spec fn view(&self) -> Seq<u8> { self.0@ } }
+impl<'a> Annex<'a> {
+    pub closed spec fn view(&self) -> Seq<u8> { self.0@ }
+//@extract file=src/sighash.rs fn=as_bytes in="impl < 'a > Annex < 'a >" vis=keep
+//@ret r
+//@spec
+//@|     ensures r@ == self@
+//@end
+}
 impl<'a> Encodable for Annex<'a> {
     closed spec fn ser(&self) -> Seq<u8> { compact_size(self.0@.len()) + self.0@ }
 //@extract file=src/sighash.rs fn=consensus_encode in="impl Encodable for Annex < '_ >"
